@@ -230,7 +230,11 @@ def run_goldens(pid, mod, limit=None):
             for k in ("literals", "adts", "impls"):
                 if k in ov:
                     cd[k] = ov[k]
+        from . import inline
+        inline.apply(data)
         prog = facts.Program(data)
+        from . import errflow
+        errflow.PROG = prog
         prog.info = {"tree_hash": "golden:" + name}
         cg = callgraph.CallGraph(prog)
         ck = Check(pid, prog, cg, tier="golden", level=mod.LEVEL)
@@ -261,5 +265,7 @@ def load_known():
 
 def load_all(fresh=False):
     prog = facts.load_program(fresh=fresh)
+    from . import errflow
+    errflow.PROG = prog
     cg = callgraph.CallGraph(prog)
     return prog, cg
